@@ -11,6 +11,7 @@
 package main
 
 import (
+	"bytes"
 	"context"
 	"encoding/hex"
 	"fmt"
@@ -75,12 +76,12 @@ var formats []*format
 
 func init() {
 	formats = []*format{
-		{name: "apk", path: "lib/apk/db/installed", ex: apk.NewDefault(), lineA: true, gen: genApk, bad: badApk, small: smallApk},
-		{name: "gradle", path: "gradle.lockfile", ex: gradlelockfile.New(), lineA: true, gen: genGradle, bad: badGradle, small: smallGradle},
-		{name: "gemfile", path: "Gemfile.lock", ex: gemfilelock.New(), lineA: true, gen: genGemfile, bad: badGemfile, small: smallGemfile},
+		{name: "apk", path: "lib/apk/db/installed", ex: apk.NewDefault(), lineA: true, gen: withLong("apk", genApk), bad: badApk, small: smallApk},
+		{name: "gradle", path: "gradle.lockfile", ex: gradlelockfile.New(), lineA: true, gen: withLong("gradle", genGradle), bad: badGradle, small: smallGradle},
+		{name: "gemfile", path: "Gemfile.lock", ex: gemfilelock.New(), lineA: true, gen: withLong("gemfile", genGemfile), bad: badGemfile, small: smallGemfile},
 		{name: "dpkg", path: "var/lib/dpkg/status", ex: dpkg.NewDefault(), lineA: true, gen: genDpkg, bad: badDpkg, small: smallDpkg},
 		{name: "dpkgd", path: "var/lib/dpkg/status.d/base-files", ex: dpkg.NewDefault(), lineA: true, gen: genDpkgD, bad: badDpkgD},
-		{name: "requirements", path: "requirements.txt", ex: requirements.NewDefault(), lineA: true, gen: genReq, bad: badReq, small: smallReq},
+		{name: "requirements", path: "requirements.txt", ex: requirements.NewDefault(), lineA: true, gen: withLong("requirements", genReq), bad: badReq, small: smallReq},
 		{name: "reqtree", path: "requirements.txt", ex: requirements.NewDefault(), lineA: true, gen: genReqTree, bad: badReqTree, small: smallReqTree, smallQuick: true, locs: true},
 		{name: "plock", path: "package-lock.json", ex: packagelockjson.NewDefault(), decode: packagelockjson.VerifDecodeDoc, gen: genPlock, bad: badOf(genPlock)},
 		{name: "composer", path: "composer.lock", ex: composerlock.New(), decode: composerlock.VerifDecodeDoc, gen: genComposer, bad: badOf(genComposer)},
@@ -89,6 +90,71 @@ func init() {
 		{name: "pipfile", path: "Pipfile.lock", ex: pipfilelock.New(), decode: pipfilelock.VerifDecodeDoc, gen: genPipfile, bad: badOf(genPipfile)},
 		{name: "pkgslock", path: "packages.lock.json", ex: packageslockjson.NewDefault(), decode: decodePkgsLock, gen: genPkgsLock, bad: badOf(genPkgsLock)},
 		{name: "gomod", path: "go.mod", ex: gomod.New(), decode: decodeGoMod, gen: genGoMod, bad: badOf(genGoMod)},
+	}
+}
+
+// withLong: every sixth well-formed case of a line format gets ONE more line the format allows and a reader must pass over — a comment
+// (gradle.lockfile, requirements.txt), a dependency field inside the first record (apk), a platform entry in a section of its own in front
+// of everything (Gemfile.lock) — whose length lies around bufio.Scanner's 64 KiB token limit: 65 534 and 65 535 bytes fit, 65 536 and
+// 70 000 do not. None of the formats limits the length of a line, so the expected list is that of the file without the line. These cases
+// carry no record token: the Lean Spec's WF assumes short lines, the generator's list is the specification here (src=gen).
+func withLong(name string, gen func(r *rand.Rand) gcase) func(r *rand.Rand) gcase {
+	return func(r *rand.Rand) gcase {
+		c := gen(r)
+		if r.Intn(6) != 0 || !c.known || len(c.files) > 0 {
+			return c
+		}
+		if name == "gemfile" && r.Intn(2) == 0 {
+			// a multi-platform lock file: the same gem at the same version once more for a native platform ("nokogiri (1.13.0)" and
+			// "nokogiri (1.13.0-x86_64-linux)"): ONE package, the platform is not part of the version
+			for _, e := range c.expect {
+				if strings.ContainsAny(e.ver, "-") || e.ver == "" {
+					continue
+				}
+				l := []byte("    " + e.name + " (" + e.ver + ")")
+				i := bytes.Index(c.data, append(append([]byte{'\n'}, l...), '\n'))
+				if i < 0 {
+					continue
+				}
+				at := i + 1 + len(l) + 1
+				twin := "    " + e.name + " (" + e.ver + "-" + []string{"x86_64-linux", "arm64-darwin", "java"}[r.Intn(3)] + ")\n"
+				d := append(append(append([]byte{}, c.data[:at]...), twin...), c.data[at:]...)
+				return gcase{format: c.format, data: d, expect: c.expect, known: true, class: c.class + "-twin"}
+			}
+			return c
+		}
+		k := []int{65534, 65535, 65536, 70000}[r.Intn(4)]
+		body := func(prefix string) string { return prefix + strings.Repeat("x", k-len(prefix)) }
+		var bounds []int // offsets just after a '\n' (and 0) where a whole line may be inserted
+		bounds = append(bounds, 0)
+		for i, b := range c.data {
+			if b == '\n' && !(name == "requirements" && i > 0 && (c.data[i-1] == '\\' || (i > 1 && c.data[i-1] == '\r' && c.data[i-2] == '\\'))) {
+				bounds = append(bounds, i+1)
+			}
+		}
+		at, ins, pos := 0, "", "top"
+		switch name {
+		case "gradle", "requirements":
+			j := r.Intn(len(bounds))
+			at, ins = bounds[j], body("# ")+"\n"
+			if j > 0 {
+				pos = "mid"
+			}
+			if at == len(c.data) {
+				pos = "end"
+			}
+		case "gemfile":
+			ins = "PLATFORMS\n" + body("  ") + "\n\n"
+		case "apk":
+			if len(bounds) < 2 || bounds[1] < 3 { // no record / a blank first line
+				return c
+			}
+			at, ins, pos = bounds[1], body("D:")+"\n", "rec"
+		default:
+			return c
+		}
+		d := append(append(append([]byte{}, c.data[:at]...), ins...), c.data[at:]...)
+		return gcase{format: c.format, data: d, expect: c.expect, known: true, class: fmt.Sprintf("%s-long%d-%s", c.class, k, pos)}
 	}
 }
 
